@@ -796,6 +796,17 @@ add("C15", "benign: helper generator prunes through an explicit set difference v
     "        if k not in generator.ALL_JSON_PATH_PARTS - TrinoGenerator.SUPPORTED_JSON_PATH_PARTS\n",
     "        if k not in (generator.ALL_JSON_PATH_PARTS - TrinoGenerator.SUPPORTED_JSON_PATH_PARTS)\n", "silent", 0)
 
+add("C20", "candidate heap entries lose their insertion counter", "sqlglot/diff.py",
+    "                                len(candidate_matchings),\n                                source_leaf,\n", "                                source_leaf,\n", "C20.g",
+    extra=[("sqlglot/diff.py", "candidate_matchings: list[tuple[float, int, int, exp.Expr, exp.Expr]] = []", "candidate_matchings: list[tuple[float, int, exp.Expr, exp.Expr]] = []"),
+           ("sqlglot/diff.py", "            _, _, _, source_leaf, target_leaf = heappop(candidate_matchings)", "            _, _, source_leaf, target_leaf = heappop(candidate_matchings)")])
+add("C20", "equal trees answered by pairing the two traversals by position", "sqlglot/diff.py",
+    "        self._unmatched_source_nodes = set(self._source_index) - set(pre_matched_nodes)\n",
+    "        if not pre_matched_nodes and self._source == self._target and not delta_only:\n            return [Keep(s, t) for s, t in zip(self._source_index.values(), self._target_index.values())]\n        self._unmatched_source_nodes = set(self._source_index) - set(pre_matched_nodes)\n", "C20.h")
+add("C20", "benign: kept pair looked up through a renamed loop over the matchings", "sqlglot/diff.py",
+    "        for kept_source_node_id, kept_target_node_id in matchings.items():\n            source_node = self._source_index[kept_source_node_id]\n            target_node = self._target_index[kept_target_node_id]\n",
+    "        for src_id, tgt_id in matchings.items():\n            kept_source_node_id, kept_target_node_id = src_id, tgt_id\n            source_node = self._source_index[src_id]\n            target_node = self._target_index[tgt_id]\n", "silent")
+
 add("C12", "_load looks a dotted class name up in sqlglot.expressions when a class of that name exists there", "sqlglot/serde.py",
     "        module = __import__(module_path, fromlist=[class_name])\n    else:\n        module = exp\n",
     "        module = exp\n        if not hasattr(exp, class_name):\n            module = __import__(module_path, fromlist=[class_name])\n    else:\n        module = exp\n", "C12.i")
